@@ -35,4 +35,68 @@ def access (words : List Nat) (i : Nat) : Bool := (words.getD (i / W) 0).testBit
 /-- Plain definition: number of ones among the first `m` bits. -/
 def ones (words : List Nat) (m : Nat) : Nat := ((allBits words).take m).count true
 
+/-! ### select1 -/
+
+/-- `popcount8`: ones among the low 8 bits (the C++ looks them up in `__popcount_tab`). -/
+def popcount8 (w : Nat) : Nat := ((List.range 8).map w.testBit).count true
+
+/-- Binary search over the super-block counters: the last super-block with `Rs < x`.
+`none` = the C++ `r = mid - 1` would wrap around (never with `1 ≤ x`). -/
+def selBin (words : List Nat) (factor x : Nat) : Nat → Nat → Nat → Nat → Option Nat
+  | 0, _, _, _ => none
+  | fuel + 1, l, r, mid =>
+    if l ≤ r then
+      if Rs words factor mid < x then selBin words factor x fuel (mid + 1) r ((mid + 1 + r) / 2)
+      else if mid = 0 then none
+      else selBin words factor x fuel l (mid - 1) ((l + (mid - 1)) / 2)
+    else some mid
+
+/-- Sequential search over whole words: `some (some (left, x))` = the word holding the `x`-th remaining
+one, `some none` = ran past the array (the C++ returns `n`), `none` = read outside `data`. -/
+def selWords (words : List Nat) (integers : Nat) : Nat → Nat → Nat → Option (Option (Nat × Nat))
+  | 0, _, _ => none
+  | fuel + 1, left, x =>
+    match words[left]? with
+    | none => none
+    | some j =>
+      if popcount j < x then
+        if left + 1 > integers then some none else selWords words integers fuel (left + 1) (x - popcount j)
+      else some (some (left, x))
+
+/-- The three byte skips: `(j, x, bits skipped)`. -/
+def selBytes (j x : Nat) : Nat × Nat × Nat :=
+  if popcount8 j < x then
+    let j1 := j >>> 8; let x1 := x - popcount8 j
+    if popcount8 j1 < x1 then
+      let j2 := j1 >>> 8; let x2 := x1 - popcount8 j1
+      if popcount8 j2 < x2 then (j2 >>> 8, x2 - popcount8 j2, 24) else (j2, x2, 16)
+    else (j1, x1, 8)
+  else (j, x, 0)
+
+/-- Bit by bit: `while (x > 0) { if (j & 1) x--; j >>= 1; left++; }`. -/
+def selBits : Nat → Nat → Nat → Nat → Option Nat
+  | 0, _, _, _ => none
+  | fuel + 1, j, x, left => if x > 0 then selBits fuel (j >>> 1) (if j % 2 = 1 then x - 1 else x) (left + 1) else some left
+
+/-- `BitSequenceRG::select1(x)` on `n` bits (`ones` = `rank1(n-1)`); `none` = a read outside the arrays. -/
+def select1 (words : List Nat) (factor n onesTotal x : Nat) : Option Nat :=
+  if x > onesTotal then some (2 ^ 32 - 1)
+  else if x = 0 then some (2 ^ 32 - 1)
+  else
+    let s := W * factor
+    match selBin words factor x (n / s + 3) 0 (n / s) ((0 + n / s) / 2) with
+    | none => none
+    | some mid =>
+      match selWords words (n / W + 1) (words.length + 1) (mid * factor) (x - Rs words factor mid) with
+      | none => none
+      | some none => some n
+      | some (some (left, x')) =>
+        match words[left]? with
+        | none => none
+        | some j =>
+          let (j', x'', off) := selBytes j x'
+          match selBits 40 j' x'' (left * W + off) with
+          | none => none
+          | some p => some (p - 1)
+
 end CSD.RG
